@@ -13,17 +13,17 @@ CHECKS = {
     "C19": {
         "binaries": ["forwarder"],
         "runs": [
-            R(LAB, "^TestC19Secrets", {"checks": 30, "timeout": 900}, {"checks": 150, "shards": 8, "timeout": 3000}),
+            R(LAB, "^TestC19Secrets", {"checks": 30, "timeout": 900}, {"checks": 400, "shards": 8, "timeout": 3000}),
         ],
     },
     "C20": {
         "runs": [
-            R(LAB, "^TestC20Limits", {"checks": 24, "timeout": 900}, {"checks": 100, "shards": 4, "timeout": 3000}),
+            R(LAB, "^TestC20Limits", {"checks": 24, "timeout": 900}, {"checks": 300, "shards": 4, "timeout": 3000}),
         ],
     },
     "C15": {
         "runs": [
-            R(LAB, "^TestC15Stall", {"checks": 20, "timeout": 900}, {"checks": 120, "shards": 8, "timeout": 3000}),
+            R(LAB, "^TestC15Stall", {"checks": 20, "timeout": 900}, {"checks": 240, "shards": 8, "timeout": 3000}),
         ],
     },
     "C11": {
@@ -33,12 +33,12 @@ CHECKS = {
     },
     "C09": {
         "runs": [
-            R(H2, "^TestC09Flow", {"checks": 400, "timeout": 900}, {"checks": 2000, "shards": 16, "timeout": 3000}, race=True),
+            R(H2, "^TestC09Flow", {"checks": 400, "timeout": 900}, {"checks": 8000, "shards": 16, "timeout": 3000}, race=True),
         ],
     },
     "C10": {
         "runs": [
-            R(H2, "^TestC10Streams", {"checks": 400, "timeout": 900}, {"checks": 2000, "shards": 16, "timeout": 3000}, race=True),
+            R(H2, "^TestC10Streams", {"checks": 400, "timeout": 900}, {"checks": 6000, "shards": 16, "timeout": 3000}, race=True),
         ],
     },
     "C07": {
@@ -83,22 +83,22 @@ CHECKS = {
     },
     "C18": {
         "runs": [
-            R(LAB, "^TestC18", {"checks": 1500, "timeout": 600}, {"checks": 4000, "shards": 16, "timeout": 2400}),
+            R(LAB, "^TestC18", {"checks": 1500, "timeout": 600}, {"checks": 40000, "shards": 16, "timeout": 2400}),
         ],
     },
     "C04": {
         "runs": [
-            R(LAB, "^TestC04", {"checks": 1500, "timeout": 600}, {"checks": 4000, "shards": 16, "timeout": 2400}),
+            R(LAB, "^TestC04", {"checks": 1500, "timeout": 600}, {"checks": 40000, "shards": 16, "timeout": 2400}),
         ],
     },
     "C02": {
         "runs": [
-            R(LAB, "^TestC02", {"checks": 1200, "timeout": 600}, {"checks": 3000, "shards": 16, "timeout": 2400}),
+            R(LAB, "^TestC02", {"checks": 1200, "timeout": 600}, {"checks": 30000, "shards": 16, "timeout": 2400}),
         ],
     },
     "C01": {
         "runs": [
-            R(LAB, "^TestC01", {"checks": 1500, "timeout": 600}, {"checks": 3000, "shards": 16, "timeout": 2400}),
+            R(LAB, "^TestC01", {"checks": 1500, "timeout": 600}, {"checks": 30000, "shards": 16, "timeout": 2400}),
         ],
     },
     "C08": {
